@@ -79,6 +79,14 @@ XP3 = [
     'let $f := function($e) { $e/@x } return //a ! $f(.)', 'sort(//*/name())',
     'map { "n": count(//a), "first": string((//a)[1]) }', '[ //a/@x ! string(.) ]', 'array:size([//a, //b])',
     'map:keys(map:merge(for $e in //* return map:entry(name($e), 1)))', 'parse-xml("<z>1</z>")/z',
+    # built-in functions that depend on the dynamic context beyond their arguments, called through the arrow operator
+    # (the function token of the expression is the one that is called)
+    'xs:dateTime("2000-01-01T12:00:00") => adjust-dateTime-to-timezone() => string()',
+    '"2000-06-01" => xs:date() => adjust-date-to-timezone() => string()',
+    'xs:time("12:00:00") => adjust-time-to-timezone() => string()', '(//*)[last()]/("en" => lang())',
+    '(//a)[1] => root() => count()', '"a" => id() => count()', '//* ! (name(.) => concat("@", position(), "/", last()))',
+    'xs:dateTime("2000-01-01T12:00:00") => string() => xs:dateTime() => timezone-from-dateTime() => empty()',
+    '(//*)[2] ! ("|" => contains-token(name(.))) ', 'xs:dateTime("2000-01-01T12:00:00") = (xs:dateTime("2000-01-01T12:00:00Z") => adjust-dateTime-to-timezone(()))',
 ]
 
 # expressions whose value is (a sequence of) function items: the items are called later, after other evaluations
